@@ -13,6 +13,10 @@ class Labwares(str, enum.Enum):
 
     SystemLiquid = "Systemliquid"
 
+    def __str__(self) -> str:
+        # the identifier itself also where the member is formatted into a record (Python >= 3.12 would print the member name)
+        return self.value
+
 
 class Tip(enum.IntEnum):
     """Enumeration of LiHa tip IDs."""
